@@ -1,6 +1,7 @@
 package core
 
 import (
+	"github.com/drand/drand/v2/protobuf/drand"
 	"strconv"
 	"runtime"
 	"bytes"
@@ -207,6 +208,21 @@ func (c *cCluster) rounds(upTo uint64) bool {
 		c.clock.Advance(time.Second)
 		time.Sleep(40*time.Millisecond + c.extraTick)
 	}
+	// a busy machine: the daemons only need processor time (and clock steps for their catch-up); be patient before giving up
+	deadline := time.Now().Add(40 * time.Second)
+	for time.Now().Before(deadline) {
+		done := true
+		for _, nd := range c.nodes {
+			if c.headOf(nd) < upTo {
+				done = false
+			}
+		}
+		if done {
+			return true
+		}
+		c.clock.Advance(time.Second)
+		time.Sleep(500 * time.Millisecond)
+	}
 	return false
 }
 
@@ -298,6 +314,7 @@ func TestVerifC13CrashPoints(t *testing.T) {
 			images   []*crashImage
 			imgMu    sync.Mutex
 			served   atomic.Uint64
+			streamed atomic.Int64
 			dbEpoch  atomic.Uint32
 			lastStep = "start"
 			keyWin   string
@@ -347,6 +364,9 @@ func TestVerifC13CrashPoints(t *testing.T) {
 				}
 				img := &crashImage{idx: idx, point: point, target: target, dir: filepath.Join(imgRoot, fmt.Sprintf("img%03d", idx)), served: served.Load(), dbEpoch: dbEpoch.Load(), window: lastStep, keyWin: keyWin, clockNow: c.clock.Now()}
 				_ = copyTree(nut.dir, img.dir)
+				// the operation at this point is held back by the hook until the copy is done: a beacon that has been served by now
+				// was served while the files were in the copied state
+				img.served = served.Load()
 				images = append(images, img)
 				if strings.HasSuffix(point, ":end") || strings.HasSuffix(point, ":created") {
 					lastStep = point + "(" + targetKind(target) + ")"
@@ -395,6 +415,16 @@ func TestVerifC13CrashPoints(t *testing.T) {
 			if err := c.firstDKG(thr); err != nil {
 				return err
 			}
+			// a client of the node under test follows its public randomness stream: whatever it receives has been served
+			streamCtx, streamCancel := context.WithCancel(context.Background())
+			defer streamCancel()
+			go func() {
+				for streamCtx.Err() == nil {
+					_ = nut.dd.PublicRandStream(&drand.PublicRandRequest{Metadata: &drand.Metadata{BeaconID: "default"}},
+						&servedStream{ctx: streamCtx, served: &served, count: &streamed})
+					time.Sleep(20 * time.Millisecond)
+				}
+			}()
 			if !c.rounds(4) {
 				return errors.New("rounds 1-4 were not produced")
 			}
@@ -453,6 +483,7 @@ func TestVerifC13CrashPoints(t *testing.T) {
 			}
 		}
 		rec.LabelN("torn-file-images", int64(len(torn)))
+		rec.LabelN("beacons-served-over-the-followed-stream", streamed.Load())
 		for _, img := range append(append([]*crashImage{}, images...), torn...) {
 			label := fmt.Sprintf("%s@%s", img.point, targetKind(img.target))
 			epochTag := fmt.Sprintf("epoch%d", finCountAt(images, img.idx)+boolInt(finCountAt(images, img.idx) == 0))
@@ -509,6 +540,25 @@ func finCountAt(images []*crashImage, idx int) int {
 }
 
 type imgViolation struct{ kind, detail string }
+
+// servedStream is the server side of a PublicRandStream followed by the harness: it records the highest round handed out.
+type servedStream struct {
+	grpc.ServerStream
+	ctx    context.Context
+	served *atomic.Uint64
+	count  *atomic.Int64
+}
+
+func (s *servedStream) Context() context.Context { return s.ctx }
+func (s *servedStream) Send(b *drand.PublicRandResponse) error {
+	s.count.Add(1)
+	for {
+		cur := s.served.Load()
+		if b.GetRound() <= cur || s.served.CompareAndSwap(cur, b.GetRound()) {
+			return nil
+		}
+	}
+}
 
 // goid returns the id of the calling goroutine (parsed from the stack header; used only for lock ownership in the hook handler).
 func goid() int64 {
